@@ -13,7 +13,7 @@ from typing import (
     MutableMapping,
     Dict,
     cast,
-    Set,
+    FrozenSet,
 )
 
 import icontract._represent
@@ -647,9 +647,14 @@ def resolve_kwdefaults(sign: inspect.Signature) -> Dict[str, Any]:
 # contract checking is already in progress.
 #
 # The key refers to the id() of the function (preconditions and postconditions) or instance (invariants).
+#
+# The value is immutable (a frozen set) and a new value is set whenever a key is added or removed.
+# A context copied from another one (*e.g.*, by an asyncio task or ``contextvars.copy_context``) shares
+# the *values* of the context variables with the original context. If the value were mutated in place,
+# the concurrent tasks would disable each other's checks.
 _IN_PROGRESS = contextvars.ContextVar(
-    "_IN_PROGRESS", default=None
-)  # type: contextvars.ContextVar[Optional[Set[int]]]
+    "_IN_PROGRESS", default=frozenset()
+)  # type: contextvars.ContextVar[FrozenSet[int]]
 
 
 def decorate_with_checker(func: CallableT) -> CallableT:
@@ -705,14 +710,7 @@ def decorate_with_checker(func: CallableT) -> CallableT:
             if kwargs_error:
                 raise kwargs_error
 
-            # We need to create a new in-progress set if it is None as the ``ContextVar`` does not accept
-            # a factory function for the default argument. If we didn't do this, and simply set an empty
-            # set as the default, ``ContextVar`` would always point to the same set by copying the default
-            # by reference.
             in_progress = _IN_PROGRESS.get()
-            if in_progress is None:
-                in_progress = set()
-                _IN_PROGRESS.set(in_progress)
 
             # If the wrapper is already checking the contracts for the wrapped function, avoid a recursive loop
             # by skipping any subsequent contract checks for the same function.
@@ -722,7 +720,7 @@ def decorate_with_checker(func: CallableT) -> CallableT:
             if id_func in in_progress:
                 return await func(*args, **kwargs)
 
-            in_progress.add(id_func)
+            _IN_PROGRESS.set(in_progress | {id_func})
 
             # Use try-finally instead of ExitStack for performance.
             try:
@@ -771,7 +769,7 @@ def decorate_with_checker(func: CallableT) -> CallableT:
 
                 return result
             finally:
-                in_progress.discard(id_func)
+                _IN_PROGRESS.set(in_progress)
 
     else:
 
@@ -781,14 +779,7 @@ def decorate_with_checker(func: CallableT) -> CallableT:
             if kwargs_error:
                 raise kwargs_error
 
-            # We need to create a new in-progress set if it is None as the ``ContextVar`` does not accept
-            # a factory function for the default argument. If we didn't do this, and simply set an empty
-            # set as the default, ``ContextVar`` would always point to the same set by copying the default
-            # by reference.
             in_progress = _IN_PROGRESS.get()
-            if in_progress is None:
-                in_progress = set()
-                _IN_PROGRESS.set(in_progress)
 
             # If the wrapper is already checking the contracts for the wrapped function, avoid a recursive loop
             # by skipping any subsequent contract checks for the same function.
@@ -798,7 +789,7 @@ def decorate_with_checker(func: CallableT) -> CallableT:
             if id_func in in_progress:
                 return func(*args, **kwargs)
 
-            in_progress.add(id_func)
+            _IN_PROGRESS.set(in_progress | {id_func})
 
             # Use try-finally instead of ExitStack for performance.
             try:
@@ -851,7 +842,7 @@ def decorate_with_checker(func: CallableT) -> CallableT:
 
                 return result
             finally:
-                in_progress.discard(id_func)
+                _IN_PROGRESS.set(in_progress)
 
     # Copy __doc__ and other properties so that doctests can run
     functools.update_wrapper(wrapper=wrapper, wrapped=func)
@@ -1016,17 +1007,10 @@ def _decorate_with_invariants(func: CallableT, is_init: bool) -> CallableT:
 
             # We need to disable the invariants check during the constructor.
 
-            # We need to create a new in-progress set if it is None as the ``ContextVar`` does not accept
-            # a factory function for the default argument. If we didn't do this, and simply set an empty
-            # set as the default, ``ContextVar`` would always point to the same set by copying the default
-            # by reference.
             in_progress = _IN_PROGRESS.get()
-            if in_progress is None:
-                in_progress = set()
-                _IN_PROGRESS.set(in_progress)
 
             id_instance = id(instance)
-            in_progress.add(id_instance)
+            _IN_PROGRESS.set(in_progress | {id_instance})
 
             # ExitStack is not used here due to performance.
             try:
@@ -1037,7 +1021,7 @@ def _decorate_with_invariants(func: CallableT, is_init: bool) -> CallableT:
 
                 return result
             finally:
-                in_progress.discard(id_instance)
+                _IN_PROGRESS.set(in_progress)
 
     else:
         # (mristin, 2021-02-16)
@@ -1073,20 +1057,13 @@ def _decorate_with_invariants(func: CallableT, is_init: bool) -> CallableT:
                     else instance.__class__.__invariants_on_call__
                 )
 
-                # We need to create a new in-progress set if it is None as the ``ContextVar`` does not accept
-                # a factory function for the default argument. If we didn't do this, and simply set an empty
-                # set as the default, ``ContextVar`` would always point to the same set by copying the default
-                # by reference.
                 in_progress = _IN_PROGRESS.get()
-                if in_progress is None:
-                    in_progress = set()
-                    _IN_PROGRESS.set(in_progress)
 
                 # The following dunder indicates whether another invariant is currently being checked. If so,
                 # we need to suspend any further invariant check to avoid endless recursion.
                 id_instance = id(instance)
                 if id_instance not in in_progress:
-                    in_progress.add(id_instance)
+                    _IN_PROGRESS.set(in_progress | {id_instance})
                 else:
                     # Do not check any invariants to avoid endless recursion.
                     return await func(*args, **kwargs)
@@ -1103,7 +1080,7 @@ def _decorate_with_invariants(func: CallableT, is_init: bool) -> CallableT:
 
                     return result
                 finally:
-                    in_progress.discard(id_instance)
+                    _IN_PROGRESS.set(in_progress)
 
         else:
 
@@ -1130,18 +1107,11 @@ def _decorate_with_invariants(func: CallableT, is_init: bool) -> CallableT:
                 # The following dunder indicates whether another invariant is currently being checked. If so,
                 # we need to suspend any further invariant check to avoid endless recursion.
 
-                # We need to create a new in-progress set if it is None as the ``ContextVar`` does not accept
-                # a factory function for the default argument. If we didn't do this, and simply set an empty
-                # set as the default, ``ContextVar`` would always point to the same set by copying the default
-                # by reference.
                 in_progress = _IN_PROGRESS.get()
-                if in_progress is None:
-                    in_progress = set()
-                    _IN_PROGRESS.set(in_progress)
 
                 id_instance = id(instance)
                 if id_instance not in in_progress:
-                    in_progress.add(id_instance)
+                    _IN_PROGRESS.set(in_progress | {id_instance})
                 else:
                     # Do not check any invariants to avoid endless recursion.
                     return func(*args, **kwargs)
@@ -1158,7 +1128,7 @@ def _decorate_with_invariants(func: CallableT, is_init: bool) -> CallableT:
 
                     return result
                 finally:
-                    in_progress.discard(id_instance)
+                    _IN_PROGRESS.set(in_progress)
 
     functools.update_wrapper(wrapper=wrapper, wrapped=func)
 
